@@ -74,6 +74,12 @@ def r14_1_prank_consumption(repo: Repo, rep: Report):
     f = [s for s in cc.body if isinstance(s, ast.AnnAssign) and src(s.target) == "prank"]
     ok = len(f) == 1 and src(f[0].value) == "field(default_factory=Prank)"
     rep.check("R14.1", ok, ms, f[0] if f else cc, src(f[0]) if f else "prank: ?", "every new frame must start without a prank (nested frames do not inherit it)")
+    from hsa.rules.common import class_methods
+
+    for cq in ("sevm.CallContext", "cheatcodes.Prank"):
+        mq, cq_ = repo.cls(cq)
+        hooks = [k for k in class_methods(cq_) if k in ("__deepcopy__", "__copy__", "__reduce__", "__getstate__")]
+        rep.check("R14.1", not hooks, mq, cq_, f"{cq}: default deepcopy (no custom copy hook)", f"custom copy hook {hooks}: the mutable prank record could be shared between sibling paths (a one-shot prank consumed on one path disappears on the other)")
     _, rm = repo.fn("sevm.SEVM.run_message")
     ecs = [c for c in body_walk(rm) if isinstance(c, ast.Call) and call_name(c) == "Exec"]
     ok = len(ecs) == 1 and src(kwarg(ecs[0], "context")) == "CallContext(message=message)"
